@@ -366,20 +366,116 @@ Inductive outcome :=
 | RReadFail.               (* the reader cannot reconstruct the bases (never for what the writer accepts
                               inside the reference: FeaturesProofs.roundtrip_ok) *)
 
+(* ---- Record::try_from_alignment_record for a record that is NOT flagged unmapped and has a
+   reference id and an alignment start (/repo 405565a: a591b36, fe42e80, 8d67724, 0049c20) ---- *)
+
+(* cigar_to_features when SEQUENCE_IS_MISSING (SEQ `*`): the guards `if flags.sequence_is_missing()`
+   come first - M / = / X add nothing (and nothing is looked up: neither the sequence, nor the
+   quality scores, nor the reference), I and S carry [op.len()] unknown bases `N` *)
+Definition missing_base : N := 78.
+Definition unknown_bases (n : N) : list N := repeat missing_base (N.to_nat n).
+Fixpoint c2f_missing (ops : list op) (dp : N) : list wfeature :=
+  match ops with
+  | [] => []
+  | (k, n) :: rest =>
+      (match k with
+       | KM | KEq | KX => []
+       | KI => [WInsertion dp (unknown_bases n)]
+       | KS => [WSoftClip dp (unknown_bases n)]
+       | KD => [WDeletion dp n]
+       | KN => [WRefSkip dp n]
+       | KH => [WHardClip dp n]
+       | KP => [WPadding dp n]
+       end) ++ c2f_missing rest (if consumes_read k then dp + n else dp)
+  end.
+
+(* is_aligned = the CIGAR is not empty (reference id and start are present here) *)
+Definition is_aligned (ops : list op) : bool := match ops with [] => false | _ => true end.
+
+(* read_length: that of the alignment when the sequence is missing *)
+Definition record_read_length (seq : list N) (ops : list op) : N :=
+  match seq with
+  | [] => if is_aligned ops then read_len ops else 0
+  | _ => len seq
+  end.
+
+(* missing quality scores are stored as read_length times 0xff *)
+Definition record_quals (rl : N) (quals : list N) : list N :=
+  match quals with [] => repeat 255 (N.to_nat rl) | _ => quals end.
+
+(* features: sequence_to_features (the whole read as one soft clip) when there is no CIGAR,
+   cigar_to_features otherwise; None = Err(InvalidInput) *)
+Definition record_features (refseq seq quals : list N) (ops : list op) (start : N)
+  : option (list wfeature) :=
+  if is_aligned ops then
+    match seq with
+    | [] => Some (c2f_missing ops 1)
+    | _ => cigar_to_features true refseq seq quals ops start
+    end
+  else Some (match seq with [] => [] | _ => [WSoftClip 1 seq] end).
+
+(* The general form (any flags, with or without reference id / start): what
+   try_from_alignment_record makes of (unmapped flag, placement, SEQ, QUAL, CIGAR).
+   [placed] = Some (reference bases if the id is in the dictionary and the repository, start)
+   when the record has a reference id and an alignment start.  Result: read_length,
+   SEQUENCE_IS_MISSING, the stored quality scores, the features; None = Err(InvalidInput). *)
+Definition convert_core (unmapped : bool) (placed : option (option (list N) * N))
+  (seq quals : list N) (ops : list op) : option (N * bool * list N * list wfeature) :=
+  let aligned := match placed with Some _ => is_aligned ops | None => false end in
+  let rl := match seq with
+            | [] => if negb unmapped && aligned then read_len ops else 0
+            | _ => len seq
+            end in
+  let missing := match seq with [] => true | _ => false end in
+  let q := record_quals rl quals in
+  if negb (len q =? rl) then None
+  else if negb unmapped && negb aligned then
+    Some (rl, missing, q, match seq with [] => [] | _ => [WSoftClip 1 seq] end)
+  else
+    match placed with
+    | Some (lookup, start) =>
+        match lookup with
+        | None => None   (* invalid reference sequence ID / missing reference sequence *)
+        | Some refseq =>
+            match (match seq with
+                   | [] => Some (c2f_missing ops 1)
+                   | _ => cigar_to_features true refseq seq q ops start
+                   end) with
+            | Some ws => Some (rl, missing, q, ws)
+            | None => None
+            end
+        end
+    | None => Some (rl, missing, q, [])
+    end.
+
 Definition roundtrip (sm : smatrix) (refseq seq quals : list N) (ops : list op) (start : N)
   : outcome :=
-  match cigar_to_features true refseq seq (writer_quals seq quals) ops start with
+  let rl := record_read_length seq ops in
+  let q := record_quals rl quals in
+  (* "sequence-quality scores length mismatch" (/repo 8d67724) *)
+  if negb (len q =? rl) then RInvalidInput
+  (* build_slice of the one-record slice: clamp_reference_sequence_context leaves a context whose
+     start lies beyond the reference end alone, and calculate_reference_sequence_md5 then answers
+     InvalidInput "alignment span is not within the reference sequence" (a start inside the
+     reference always passes: the end is clamped) - the only check of the position when the
+     features are not made by comparing bases with the reference *)
+  else if len refseq <? start then RInvalidInput
+  else
+  match record_features refseq seq q ops start with
   | None => RInvalidInput
   | Some ws =>
       match encode_features sm ws with
       | None => RWritePanic
       | Some fs =>
-          (* record.rs: SEQUENCE_IS_MISSING (empty sequence) bypasses the reconstruction *)
-          if len seq =? 0 then ROk (simplify (rebuild_cigar fs 1 0)) []
-          else
-          match rebuild_seq refseq sm fs start 1 (len seq) with
-          | None => RReadFail
-          | Some s => ROk (simplify (rebuild_cigar fs 1 (len seq))) s
+          (* record.rs: SEQUENCE_IS_MISSING (empty sequence) bypasses the reconstruction of the
+             bases; the CIGAR is rebuilt from the features and the stored read length *)
+          match seq with
+          | [] => ROk (simplify (rebuild_cigar fs 1 rl)) []
+          | _ =>
+              match rebuild_seq refseq sm fs start 1 rl with
+              | None => RReadFail
+              | Some s => ROk (simplify (rebuild_cigar fs 1 rl)) s
+              end
           end
       end
   end.
